@@ -17,6 +17,8 @@ CATALOGUE = {
     "T263g": (263, -3, 1, 257, "7*T263", 1),
     # T43 whose base point object is handed to the library in a projective scaling with Z = 5 (see GEN_Z)
     "T43z": (43, 0, 7, 31, (2, 12), 1),
+    # T43 whose base point object is a LEGACY affine ellipticcurve.Point (see GEN_AFFINE): what curves built by older code look like
+    "T43a": (43, 0, 7, 31, (2, 12), 1),
     # cofactor curves: generator found at import time (a point of order n)
     "Th2": (257, 2, 6, 139, None, 2),
     "Th4": (257, 1, 8, 67, None, 4),
@@ -25,6 +27,7 @@ CATALOGUE = {
 
 
 GEN_Z = {"T43z": 5}
+GEN_AFFINE = {"T43a"}
 
 
 # ---------------------------------------------------------------- textbook affine arithmetic (inputs only)
@@ -98,6 +101,8 @@ def lib_curve(ecdsa, cid, fresh=False):
     cf = ellipticcurve.CurveFp(p, a, b, h)
     z = GEN_Z.get(cid, 1)
     gen = ellipticcurve.PointJacobi(cf, G[0] * z * z % p, G[1] * z * z * z % p, z, n, generator=True)
+    if cid in GEN_AFFINE:
+        gen = ellipticcurve.Point(cf, G[0], G[1], n)
     oid = (1, 3, 9999, 1, sorted(CATALOGUE).index(cid) + 1)
     c = curves.Curve(cid, cf, gen, oid, None)
     if not fresh:
